@@ -289,11 +289,7 @@ func moveOutDir(w *bytes.Buffer, value json.RawMessage,
 	case *syntax.TypedMapType:
 		keys := make([]string, 0, len(valueMap))
 		for k := range valueMap {
-			if err := syntax.IsLegalUnixFilename(k); err != nil {
-				util.PrintError(err, "cannot create out directory %q", k)
-			} else {
-				keys = append(keys, k)
-			}
+			keys = append(keys, k)
 		}
 		sort.Strings(keys)
 		p := syntax.StructMember{
@@ -302,6 +298,19 @@ func moveOutDir(w *bytes.Buffer, value json.RawMessage,
 		p.CacheIsFile(t.Elem)
 		for i, k := range keys {
 			writeKey(i, k)
+			if err := syntax.IsLegalUnixFilename(k); err != nil {
+				// Nothing under outs/ can have this name.  Keep the entry,
+				// with its files where they are, rather than dropping it.
+				util.PrintError(err, "cannot create out directory %q", k)
+				if v := valueMap[k]; v == nil {
+					if _, err := w.Write(nullBytes); err != nil {
+						errs = append(errs, err)
+					}
+				} else if _, err := w.Write(v); err != nil {
+					errs = append(errs, err)
+				}
+				continue
+			}
 			p.Id = k
 			if err := moveOutFiles(w,
 				&p,
